@@ -1982,9 +1982,52 @@ func (g *grGen) step() {
 		}
 	case k < 196:
 		g.staticVsGenerated()
+	case k < 198:
+		g.multiBusNode()
 	default:
 		g.observe()
 	}
+}
+
+// multiBusNode: a node with two interfaces on two DIFFERENT buses and, on the SECOND bus only,
+// another node whose name / id is then asked for: the rename / id change must be refused and
+// NEITHER bus may change (the first bus accepts the key, the second does not); then a key that is
+// free on both is taken, and the old one must be reusable on both buses.
+func (g *grGen) multiBusNode() {
+	if len(g.buses) < 2 {
+		return
+	}
+	r := g.r
+	b1, b2 := g.buses[0], g.buses[1+r.Intn(len(g.buses)-1)]
+	n, i1, i2 := g.fresh(), g.fresh(), g.fresh()
+	if g.emit(sprintf("gr node.new %d mb%d %d 2 %d %d", n, n, 40+r.Intn(5), i1, i2)) != "ok" {
+		return
+	}
+	g.nodes = append(g.nodes, n)
+	g.ifaces = append(g.ifaces, i1, i2)
+	o, oi := g.fresh(), g.fresh()
+	oid := 50 + r.Intn(5)
+	if g.emit(sprintf("gr node.new %d mo%d %d 1 %d", o, o, oid, oi)) != "ok" {
+		return
+	}
+	g.nodes = append(g.nodes, o)
+	g.ifaces = append(g.ifaces, oi)
+	g.emit(sprintf("gr bus.addIface %d %d", b1, i1))
+	g.emit(sprintf("gr bus.addIface %d %d", b2, i2))
+	g.emit(sprintf("gr bus.addIface %d %d", b2, oi))
+	if r.Intn(2) == 0 {
+		g.emit(sprintf("gr node.name %d mo%d", n, o)) // taken on the second bus only
+	} else {
+		g.emit(sprintf("gr node.id %d %d", n, oid))
+	}
+	g.emit(sprintf("gr dump.bus %d", b1))
+	g.emit(sprintf("gr dump.bus %d", b2))
+	g.emit(sprintf("gr probe.nodename %d mb%d", b1, n))
+	g.emit(sprintf("gr probe.nodename %d mo%d", b1, o))
+	g.emit(sprintf("gr node.name %d mz%d", n, n)) // free on both
+	g.emit(sprintf("gr dump.bus %d", b1))
+	g.emit(sprintf("gr dump.bus %d", b2))
+	g.emit(sprintf("gr dump.node %d", n))
 }
 
 // staticVsGenerated: on one interface a message with a GENERATED id k and a sibling whose
